@@ -82,15 +82,14 @@ let show_hm = function
   | HmErr DeleteAfterPending -> "delafter"
   | HmPanic -> "panic"
 
-let () =
-  iter_cases (fun id c ->
-    let ws = bool_of_sx (List.hd (args (field "ws" c))) in
-    let (a, b) = split_text (field "text" c) in
-    let obs = field "obs" c in
+(* one pair of blobs with what the implementation returned for it; [lbl] prefixes the messages (stream c11multi:
+   which file of which commit); returns true when both blobs are text *)
+let judge (id : int) (lbl : string) (ws : bool) (a : z list) (b : z list) (obs : sx) : bool =
+    let mismatch id s = mismatch id (lbl ^ s) and propfail id s = propfail id (lbl ^ s) in
     match field_opt "diffs" obs with
     | None ->
         (* FileDiff.Consume panicked or returned an error: never expected *)
-        propfail id ("FileDiff.Consume failed: " ^ string_of_sx obs)
+        propfail id ("FileDiff.Consume failed: " ^ string_of_sx obs); false
     | Some dsx ->
     let ds_i = List.map (fun r -> (tag r, int_of_sx (List.hd (args r)))) (args dsx) in
     let ds = List.map (fun (o, n) -> (op_of o, nat_of_int n)) ds_i in
@@ -192,4 +191,59 @@ let () =
         let shown = if runs <= 40 then String.concat " " (List.map (fun (o, n) -> o ^ string_of_int n) ds_i) else Printf.sprintf "%d runs" runs in
         propfail id (Printf.sprintf "%s [ws=%b diff %s]" (String.concat "; " (List.rev !fails)) ws shown)
       end
-    end)
+    end;
+    in_domain
+
+(* stream c11multi: several changes per FileDiff.Consume call, several calls on one instance; every file is judged
+   like a single pair *)
+let judge_multi (id : int) (c : sx) (files : sx) =
+  let cfgs = Array.of_list (args (field "cfgs" c)) in
+  let ws_of ci = if ci >= 0 && ci < Array.length cfgs then bool_of_sx (List.nth (args cfgs.(ci)) 1) else false in
+  let obs = field "obs" c in
+  let fobs = List.filter (fun o -> tag o = "f") (args obs) in
+  let fl = args files in
+  if List.length fobs <> List.length fl then mismatch id "driver-failure number of observations differs from the number of files"
+  else begin
+    let text_commit : (int, bool) Hashtbl.t = Hashtbl.create 4 in
+    let per_commit : (int, int) Hashtbl.t = Hashtbl.create 4 in
+    List.iteri (fun k (f, o) ->
+      let ci = int_of_sx (List.hd (args (field "ci" f))) in
+      let act = atom (List.hd (args (field "act" f))) in
+      let (a, b) = split_text (field "text" f) in
+      let lbl = Printf.sprintf "change %d of %d (Consume call %d): " (k + 1) (List.length fl) ci in
+      Hashtbl.replace per_commit ci (1 + try Hashtbl.find per_commit ci with Not_found -> 0);
+      let text_ok =
+        if act <> "mod" then begin
+          (match field_opt "absent" o with
+           | Some x when bool_of_sx (List.hd (args x)) -> ()
+           | _ -> mismatch id (lbl ^ "FileDiff.Consume reports a diff for an insertion / a deletion"));
+          (if act = "ins" then textb b else textb a)
+        end else if field_opt "missing" o <> None then begin
+          (* inside the domain (both versions text) a violation; outside only a difference from the code as it is *)
+          let dom = textb a && textb b in
+          if dom then propfail id (lbl ^ "FileDiff.Consume returned no diff for a modified text file")
+          else mismatch id (lbl ^ "FileDiff.Consume returned no entry for a modified binary file");
+          dom
+        end else judge id lbl (ws_of ci) a b o in
+      if not text_ok then Hashtbl.replace text_commit ci false
+      else if not (Hashtbl.mem text_commit ci) then Hashtbl.replace text_commit ci true) (List.combine fl fobs);
+    Hashtbl.iter (fun _ n -> count (Printf.sprintf "commits_with_%d_changes" n)) per_commit;
+    List.iter (fun o ->
+      if tag o = "burnall" then begin
+        let ci = int_of_sx (List.nth (args o) 0) and v = atom (List.nth (args o) 1) in
+        if v <> "ok" && (try Hashtbl.find text_commit ci with Not_found -> false) then
+          propfail id (Printf.sprintf "Consume call %d: the burndown consumer rejects the commit as a whole: %s" ci v)
+      end) (args obs);
+    (match field_opt "extra" obs with
+     | Some x when int_of_sx (List.hd (args x)) <> 0 -> mismatch id "FileDiff.Consume reports diffs under names that no modification of the commit has"
+     | _ -> ())
+  end
+
+let () =
+  iter_cases (fun id c ->
+    match field_opt "files" c with
+    | Some files -> judge_multi id c files
+    | None ->
+        let ws = bool_of_sx (List.hd (args (field "ws" c))) in
+        let (a, b) = split_text (field "text" c) in
+        ignore (judge id "" ws a b (field "obs" c)))
